@@ -338,6 +338,20 @@ def subMatchStr (ini : Option (List Nat)) (any : List (List Nat)) (fin : Option 
       | none => true
       | some f => f.isSuffixOf r'
 
+/-- the `any` components and the final one, declaratively: `r = g₀ · a₁ · g₁ · … · aₙ · gₙ · f` -/
+def anySpec : List (List Nat) → Option (List Nat) → List Nat → Prop
+  | [], none, _ => True
+  | [], some f, r => ∃ g, r = g ++ f
+  | a :: as, fin, r => ∃ g r', r = g ++ a ++ r' ∧ anySpec as fin r'
+
+/-- RFC 4511 §4.5.1.7.2 as a specification: the value is the initial component, then the `any`
+components in order separated by arbitrary gaps, then the final component (`subMatchStr` is its
+leftmost-greedy decision procedure: `subMatchStr_iff_spec`) -/
+def subSpec (ini : Option (List Nat)) (any : List (List Nat)) (fin : Option (List Nat)) (x : List Nat) : Prop :=
+  match ini with
+  | none => anySpec any fin x
+  | some i => ∃ r, x = i ++ r ∧ anySpec any fin r
+
 def strOf : Val → Option (List Nat)
   | .str s => some s
   | .num _ => none
